@@ -359,18 +359,31 @@ pub fn render_text(records: &[Rec], c: &Container) -> (Vec<u8>, Vec<usize>) {
                 out.push(b'@');
                 out.extend_from_slice(header.as_bytes());
                 out.extend_from_slice(nl);
-                out.extend_from_slice(r.seq.as_bytes());
-                out.extend_from_slice(nl);
-                out.push(b'+');
-                out.extend_from_slice(nl);
                 // deterministic quality string of the same length; may start
                 // with '@' or '+', which a 4-line parser must cope with
                 let h = verif_rt::rng::hash_str(&r.id);
-                for (i, _) in r.seq.bytes().enumerate() {
-                    let q = 33 + ((h >> (i % 48)) as usize + i * 7) % 94;
-                    out.push(q as u8);
+                let qual: Vec<u8> = (0..r.seq.len()).map(|i| (33 + ((h >> (i % 48)) as usize + i * 7) % 94) as u8).collect();
+                if c.wrap == 0 || r.seq.is_empty() {
+                    out.extend_from_slice(r.seq.as_bytes());
+                    out.extend_from_slice(nl);
+                    out.push(b'+');
+                    out.extend_from_slice(nl);
+                    out.extend_from_slice(&qual);
+                    out.extend_from_slice(nl);
+                } else {
+                    // multi-line FASTQ: bases and qualities wrapped to the same width (the
+                    // reader takes as many quality lines as it saw sequence lines)
+                    for chunk in r.seq.as_bytes().chunks(c.wrap) {
+                        out.extend_from_slice(chunk);
+                        out.extend_from_slice(nl);
+                    }
+                    out.push(b'+');
+                    out.extend_from_slice(nl);
+                    for chunk in qual.chunks(c.wrap) {
+                        out.extend_from_slice(chunk);
+                        out.extend_from_slice(nl);
+                    }
                 }
-                out.extend_from_slice(nl);
             }
         }
     }
